@@ -41,6 +41,24 @@ abbrev Disk := Key → Option Bytes
 
 def pngSig : Bytes := [137, 80, 78, 71, 13, 10, 26, 10]
 
+/-- `font.rs`: `DATA_DIR`, `IMAGES_DIR` -/
+def storeDirName : Kind → List Char
+  | .data => ['d', 'a', 't', 'a']
+  | .image => ['i', 'm', 'a', 'g', 'e', 's']
+
+/-- the `StoreError` variant an error stands for -/
+def Err.variantName : Err → List Char
+  | .emptyPath => "EmptyPath".toList
+  | .pathIsAbsolute => "PathIsAbsolute".toList
+  | .dirUnderFile => "DirUnderFile".toList
+  | .subdir => "Subdir".toList
+  | .invalidImage => "InvalidImage".toList
+  | .io => "Io".toList
+
+/-- the early returns of the two `validate_entry`, in model order -/
+def dataClauseErrs : List Err := [.emptyPath, .pathIsAbsolute, .dirUnderFile, .dirUnderFile]
+def imageClauseErrs : List Err := [.emptyPath, .pathIsAbsolute, .subdir, .invalidImage]
+
 /-- `items.contains_key(p)` -/
 def hasKey (items : Items) (p : P) : Bool := items.any fun e => parse e.1 == p
 
